@@ -10,6 +10,7 @@ def callIds : List Op → List Nat
   | .acquire id _ :: os => id :: callIds os
   | .tryAcquire id _ :: os => id :: callIds os
   | .release _ :: os => callIds os
+  | .setCapacity _ :: os => callIds os
 
 /-- ids of the acquirers that were queued, in arrival order -/
 def queuedIds : List (Op × Out) → List Nat
@@ -34,6 +35,7 @@ def settled1 : Op × Out → List Nat
   | (.acquire id _, out) => if out.res = .queued then [] else [id]
   | (.tryAcquire id _, _) => [id]
   | (.release _, out) => out.woke
+  | (.setCapacity _, out) => out.woke
 
 def settledIds : List (Op × Out) → List Nat
   | [] => []
@@ -43,6 +45,7 @@ def ids1 : Op → List Nat
   | .acquire id _ => [id]
   | .tryAcquire id _ => [id]
   | .release _ => []
+  | .setCapacity _ => []
 
 theorem callIds_cons (o : Op) (os : List Op) : callIds (o :: os) = ids1 o ++ callIds os := by
   cases o <;> rfl
@@ -57,6 +60,17 @@ theorem release_woke (s : St) (id : Nat) :
     · simp
     · simp only [ids]
       rw [← List.map_append, List.take_append_drop]
+
+theorem setCapacity_woke (s : St) (c : Int) :
+    ids s.waiters = (setCapacity s c).2.woke ++ ids (setCapacity s c).1.waiters := by
+  unfold setCapacity
+  split
+  · simp
+  · dsimp only
+    split
+    · simp only [ids]
+      rw [← List.map_append, List.take_append_drop]
+    · simp
 
 theorem acquire_woke (s : St) (id : Nat) (a : Int) : (step s (.acquire id a)).2.woke = [] := by
   rw [step_acquire]; split
@@ -89,6 +103,11 @@ theorem fifo_step (s : St) (o : Op) :
     have := release_woke s id
     simp [queuedIds]
     exact this
+  | setCapacity c =>
+    rw [step_setCapacity]
+    have := setCapacity_woke s c
+    simp [queuedIds]
+    exact this
 
 theorem queuedIds_cons (x : Op × Out) (r : List (Op × Out)) :
     queuedIds (x :: r) = queuedIds [x] ++ queuedIds r := by
@@ -99,6 +118,7 @@ theorem queuedIds_cons (x : Op × Out) (r : List (Op × Out)) :
     cases res <;> simp [queuedIds]
   | tryAcquire id a => simp [queuedIds]
   | release id => simp [queuedIds]
+  | setCapacity c => simp [queuedIds]
 
 /-- FIFO ledger: (initially waiting) ++ (queued during the run) = (woken during the run) ++ (still waiting),
     as lists — wake order is arrival order and nobody is skipped -/
@@ -130,6 +150,10 @@ theorem settle_step (s : St) (o : Op) :
     rw [step_release]
     simp only [settled1, ids1, List.append_nil]
     rw [← release_woke]
+  | setCapacity c =>
+    rw [step_setCapacity]
+    simp only [settled1, ids1, List.append_nil]
+    rw [← setCapacity_woke]
 
 theorem settle_ledger (s : St) (ops : List Op) :
     (settledIds (trace s ops) ++ ids (run s ops).waiters).Perm (ids s.waiters ++ callIds ops) := by
@@ -161,6 +185,9 @@ theorem grantIds_sublist_settled (s : St) (ops : List Op) :
       simp at hw; subst hw
       cases res <;> simp [grantIds, settled1] <;> first | exact ih _ | exact (ih _).cons _
     | release id =>
+      simp only [grantIds, settled1]
+      exact List.Sublist.append (List.Sublist.refl _) (ih _)
+    | setCapacity c =>
       simp only [grantIds, settled1]
       exact List.Sublist.append (List.Sublist.refl _) (ih _)
 
